@@ -12,6 +12,8 @@ import (
 	"strconv"
 	"strings"
 	"time"
+
+	"trpc.group/trpc-go/trpc-mcp-go/internal/verifhook"
 )
 
 // Validation range constants for retry configuration parameters.
@@ -200,6 +202,10 @@ func Execute(
 		backoff := time.Duration(float64(config.InitialBackoff) * multiplier)
 		if backoff > config.MaxBackoff {
 			backoff = config.MaxBackoff
+		}
+
+		if verifhook.Backoff(backoff) {
+			continue
 		}
 
 		// Wait before retry
